@@ -93,6 +93,47 @@ def unionResult (p : Params) (u : Un ν) (tt : TType) : St ν := copyAs p u.gadg
 /-- `hll_union::reset()` -/
 def unionReset (p : Params) (u : Un ν) : Un ν := { u with gadget := reset p u.gadget }
 
+/-! ### the union as the source has it NOW (flags of `Params` read from the headers by tools/trules/hll.py)
+
+The definitions above are the PINNED shape (defects D1 / D14, refuted in Props/C04.lean).  The `…F` variants follow the two
+source-shape flags and are what the driver executes; with both flags false they are the pinned functions. -/
+
+/-- `copy_or_downsample` with the repaired tail: `check_rebuild_kxq_cur_min()` right after `mergeHll` -/
+def copyOrDownsampleF (p : Params) (src : St ν) (tgtLgK : Nat) : St ν :=
+  if p.unionDownsampleRebuilds then
+    if src.lgK ≤ tgtLgK then copyAs p src .h8 else
+    let t : St ν := checkRebuild (mergeHll (newHll tgtLgK .h8 false) src)
+    { t with hip := src.hip, ooo := src.ooo }
+  else copyOrDownsample p src tgtLgK
+
+def unionImplF (p : Params) (u : Un ν) (src : St ν) : Un ν :=
+  let dst := u.gadget
+  if src.mode ≠ .hll then
+    if isEmpty dst ∧ src.lgK = dst.lgK then { u with gadget := copyAs p src .h8 }
+    else { u with gadget := src.items.foldl (couponUpdate p) dst }
+  else if !isEmpty dst then
+    if dst.mode ≠ .hll then
+      let d := copyOrDownsampleF p src u.lgMaxK
+      { u with gadget := mergeList p d dst.items }
+    else
+      let d := if src.lgK < dst.lgK then copyOrDownsampleF p dst src.lgK else dst
+      let d := mergeHll d src
+      { u with gadget := { d with ooo := true, hip := HNum.ofNat 0 } }
+  else { u with gadget := copyOrDownsampleF p src u.lgMaxK }
+
+def unionUpdateF (p : Params) (u : Un ν) (src : St ν) : Un ν :=
+  if isEmpty src then u else unionImplF p u src
+
+def unionUpdateRvF (p : Params) (u : Un ν) (src : St ν) : Un ν :=
+  if isEmpty src then u else
+  if isEmpty u.gadget ∧ src.tt = .h8 ∧ src.lgK ≤ u.lgMaxK ∧ (src.mode = .hll ∨ src.lgK = u.lgMaxK) then
+    unionImplF p { u with gadget := src } u.gadget
+  else unionImplF p u src
+
+/-- `hll_union::reset()`: repaired shape = a fresh gadget of lg_max_k -/
+def unionResetF (p : Params) (u : Un ν) : Un ν :=
+  if p.unionResetToMaxK then { u with gadget := newSketch p u.lgMaxK .h8 false } else unionReset p u
+
 /-! ### histories (used by the theorems of Props/C04.lean) -/
 
 /-- an input sketch described by its own configuration and item (coupon) stream -/
@@ -120,6 +161,16 @@ def uStep (p : Params) (u : Un ν) : UOp → Un ν
   | .reset => unionReset p u
 
 def uRun (p : Params) (u : Un ν) (ops : List UOp) : Un ν := ops.foldl (uStep p) u
+
+/-- one operation / a history on the union as the source has it now -/
+def uStepF (p : Params) (u : Un ν) : UOp → Un ν
+  | .merge d false => unionUpdateF p u (d.build p)
+  | .merge d true => unionUpdateRvF p u (d.build p)
+  | .coupon c => unionCoupon p u c
+  | .touch => unionTouch u
+  | .reset => unionResetF p u
+
+def uRunF (p : Params) (u : Un ν) (ops : List UOp) : Un ν := ops.foldl (uStepF p) u
 
 /-- every coupon offered since the last reset: the inputs' own item lists and the raw items -/
 def offeredStep (acc : List Nat) : UOp → List Nat
